@@ -399,6 +399,21 @@ func (se *ShapeEval) EvalEntry(entry *FuncRef) {
 		if ref == nil || ref.Decl.Recv == nil {
 			continue
 		}
+		if plainWriterHelper(se.c, f) {
+			// a method of the builder that only writes builder fields to the file it is handed: its writes, in order
+			hinfo := ref.Pkg.TypesInfo
+			for _, hs := range ref.Decl.Body.List {
+				hc := hs.(*ast.ExprStmt).X.(*ast.CallExpr)
+				if hf := callee(hinfo, hc); hf != nil && hf.FullName() == "(*os.File).WriteString" && len(hc.Args) == 1 {
+					if fv := fieldVar(hinfo, hc.Args[0]); fv != nil {
+						se.writes = append(se.writes, fv)
+					} else {
+						se.errf(hc.Pos(), "WriteString of something that is not a builder field")
+					}
+				}
+			}
+			continue
+		}
 		if strings.HasPrefix(f.Name(), "build") {
 			se.calls = append(se.calls, ref.Name)
 			fr := se.newFrame(ref)
@@ -739,6 +754,22 @@ func (se *ShapeEval) loop(fr *shapeFrame, s ast.Stmt) {
 	switch l := s.(type) {
 	case *ast.RangeStmt:
 		body = l.Body
+		// `for i, x := range S { if i == 0 { continue }; … }` over a slice is the counted loop
+		// `for i := 1; i < len(S); i++ { x := S[i]; … }`: normalise to that form
+		if ko, rest := skipsFirstIndex(info, l); ko != nil {
+			if fr.pc.subst == nil {
+				fr.pc.subst = map[types.Object]string{}
+			}
+			lp.Lo = 1
+			lp.Var = "$" + ko.Name()
+			lp.Over = "len(" + fr.pc.path(l.X) + ")"
+			if vo := identObj(info, l.Value); vo != nil {
+				fr.pc.subst[vo] = fr.pc.path(l.X) + "[" + lp.Var + "]"
+			}
+			fr.pc.subst[ko] = lp.Var
+			body = &ast.BlockStmt{Lbrace: l.Body.Lbrace, List: rest, Rbrace: l.Body.Rbrace}
+			break
+		}
 		lp.Over = fr.pc.path(l.X)
 		if o := identObj(info, l.Value); o != nil {
 			lp.Var = fr.pc.path(l.Value.(*ast.Ident))
@@ -1171,4 +1202,107 @@ func substMarkers(s Shape, sub map[*sVar]Shape) Shape {
 		return &SQuote{Inner: substMarkers(x.Inner, sub)}
 	}
 	return s
+}
+
+// skipsFirstIndex: the range statement runs over a slice with a named index and its body starts with
+// `if <index> == 0 { continue }`; returns the index variable and the rest of the body.
+func skipsFirstIndex(info *types.Info, l *ast.RangeStmt) (types.Object, []ast.Stmt) {
+	if l.Tok != token.DEFINE || l.Key == nil || len(l.Body.List) == 0 {
+		return nil, nil
+	}
+	if _, isSlice := info.TypeOf(l.X).Underlying().(*types.Slice); !isSlice {
+		return nil, nil
+	}
+	ko := identObj(info, l.Key)
+	if ko == nil || ko.Name() == "_" {
+		return nil, nil
+	}
+	is, ok := l.Body.List[0].(*ast.IfStmt)
+	if !ok || is.Init != nil || is.Else != nil || len(is.Body.List) != 1 {
+		return nil, nil
+	}
+	if br, ok := is.Body.List[0].(*ast.BranchStmt); !ok || br.Tok != token.CONTINUE || br.Label != nil {
+		return nil, nil
+	}
+	be, ok := unparen(is.Cond).(*ast.BinaryExpr)
+	if !ok || be.Op != token.EQL || identObj(info, be.X) != ko || !isConstZero(info, be.Y) {
+		return nil, nil
+	}
+	// the index and the element are not assigned in the body
+	written := false
+	ast.Inspect(l.Body, func(n ast.Node) bool {
+		switch x := n.(type) {
+		case *ast.AssignStmt:
+			for _, lh := range x.Lhs {
+				if o := identObj(info, lh); o != nil && (o == ko || o == identObj(info, l.Value)) {
+					written = true
+				}
+			}
+		case *ast.IncDecStmt:
+			if identObj(info, x.X) == ko {
+				written = true
+			}
+		case *ast.UnaryExpr:
+			if x.Op == token.AND {
+				if o := identObj(info, x.X); o != nil && (o == ko || o == identObj(info, l.Value)) {
+					written = true
+				}
+			}
+		}
+		return true
+	})
+	if written {
+		return nil, nil
+	}
+	return ko, l.Body.List[1:]
+}
+
+func isConstZero(info *types.Info, e ast.Expr) bool {
+	v, ok := constInt(info, e)
+	return ok && v == 0
+}
+
+// plainWriterHelper: a repository function whose body is nothing but `p.WriteString(…)` / `p.Close()` statements on
+// one of its own *os.File parameters (no other call, no control flow).
+func plainWriterHelper(c *Ctx, f *types.Func) bool {
+	ref := c.FuncOf(f)
+	if ref == nil || ref.Decl.Body == nil || len(ref.Decl.Body.List) == 0 {
+		return false
+	}
+	info := ref.Pkg.TypesInfo
+	params := map[types.Object]bool{}
+	for _, p := range paramObjs(info, ref.Decl) {
+		params[p] = true
+	}
+	for _, st := range ref.Decl.Body.List {
+		es, ok := st.(*ast.ExprStmt)
+		if !ok {
+			return false
+		}
+		call, ok := es.X.(*ast.CallExpr)
+		if !ok {
+			return false
+		}
+		cf := callee(info, call)
+		if cf == nil || (cf.FullName() != "(*os.File).WriteString" && cf.FullName() != "(*os.File).Close") {
+			return false
+		}
+		se, ok := unparen(call.Fun).(*ast.SelectorExpr)
+		if !ok || !params[identObj(info, se.X)] {
+			return false
+		}
+		for _, a := range call.Args {
+			nested := false
+			ast.Inspect(a, func(n ast.Node) bool {
+				if _, isCall := n.(*ast.CallExpr); isCall {
+					nested = true
+				}
+				return true
+			})
+			if nested {
+				return false
+			}
+		}
+	}
+	return true
 }
